@@ -315,3 +315,31 @@ m("c07-suback-value-truncated-to-request", "C07", P, "            request.deferr
 m("c15-abort-skipped-when-window-busy", "C15", B, "            self._pingReq.alarm = None    # it has just fired: nothing left to cancel\n            self.transport.abortConnection()\n",
   "            self._pingReq.alarm = None    # it has just fired: nothing left to cancel\n            if getattr(self, '_window', 1) < 8:\n                self.transport.abortConnection()\n")
 m("c16-suback-id-out-of-window-raises", "C16", P, "            request.deferred.callback(response.granted)\n", "            request.deferred.callback(response.granted if response.granted else response.granted[0])\n")
+rf("rf-resume-subscriptions-in-persistent-sessions", [
+    # an allowed alternative for C07: pending SUBSCRIBE/UNSUBSCRIBE of a persistent session are sent
+    # again on the next connection instead of being failed at the loss
+    (P, "        for k in list(self.factory.windowSubscribe[self.addr]):\n            request = self.factory.windowSubscribe[self.addr][k]\n            del self.factory.windowSubscribe[self.addr][k]\n            request.deferred.errback(reason)\n        for k in list(self.factory.windowUnsubscribe[self.addr]):\n            request = self.factory.windowUnsubscribe[self.addr][k]\n            del self.factory.windowUnsubscribe[self.addr][k]\n            request.deferred.errback(reason)\n        # Then, invoke publish errbacks if we do not persist state\n",
+        "        if self._cleanStart:\n            self._failSubscriptions(reason)\n        # Then, invoke publish errbacks if we do not persist state\n"),
+    (P, "    def doDisconnected(self):\n        '''\n        No retransmissions after DISCONNECT.\n        '''\n",
+        "    def _failSubscriptions(self, reason):\n        for k in list(self.factory.windowSubscribe[self.addr]):\n            request = self.factory.windowSubscribe[self.addr][k]\n            del self.factory.windowSubscribe[self.addr][k]\n            if request.alarm is not None:\n                request.alarm.cancel()\n                request.alarm = None\n            request.deferred.errback(reason)\n        for k in list(self.factory.windowUnsubscribe[self.addr]):\n            request = self.factory.windowUnsubscribe[self.addr][k]\n            del self.factory.windowUnsubscribe[self.addr][k]\n            if request.alarm is not None:\n                request.alarm.cancel()\n                request.alarm = None\n            request.deferred.errback(reason)\n\n\n    def doDisconnected(self):\n        '''\n        No retransmissions after DISCONNECT.\n        '''\n"),
+    (P, "        if self._cleanStart:\n            self._purgeSession(MQTTSessionCleared(), inherited=True)\n        else:\n            self._syncSession()\n",
+        "        if self._cleanStart:\n            self._purgeSession(MQTTSessionCleared(), inherited=True)\n            for w in (self.factory.windowSubscribe[self.addr], self.factory.windowUnsubscribe[self.addr]):\n                for k in list(w):\n                    if w[k].alarm is None:\n                        w.pop(k).deferred.errback(MQTTSessionCleared())\n        else:\n            self._syncSession()\n            for request in list(self.factory.windowSubscribe[self.addr].values()):\n                if request.alarm is None:\n                    self._retrySubscribe(request, True)\n            for request in list(self.factory.windowUnsubscribe[self.addr].values()):\n                if request.alarm is None:\n                    self._retryUnsubscribe(request, True)\n"),
+    (P, "        if self._version == v31:\n            request.encoded[0] |=  (dup << 3)   # set the dup flag\n        interval = request.interval() + 0.25*len(self.factory.windowSubscribe[self.addr])\n",
+        "        if self._version == v31:\n            request.encoded[0] |=  (dup << 3)   # set the dup flag\n        else:\n            request.encoded[0] &= 0xF7\n        interval = request.interval() + 0.25*len(self.factory.windowSubscribe[self.addr])\n"),
+    (P, "        if self._version == v31:\n            request.encoded[0] |=  (dup << 3)   # set the dup flag\n        interval = request.interval() + 0.25*len(self.factory.windowUnsubscribe[self.addr])\n",
+        "        if self._version == v31:\n            request.encoded[0] |=  (dup << 3)   # set the dup flag\n        else:\n            request.encoded[0] &= 0xF7\n        interval = request.interval() + 0.25*len(self.factory.windowUnsubscribe[self.addr])\n"),
+])
+rf("rf-qos2-delivered-on-publish", [
+    # allowed alternative for C06: deliver a QoS 2 message when its PUBLISH arrives (once), not at PUBREL
+    (P, "            self.factory.windowPubRx[self.addr][response.msgId] = response\n            reply = PUBREC()\n            reply.msgId = response.msgId\n            log.debug(\"<== {packet:7} (id={response.msgId:04x})\" , packet=\"PUBREC\", response=response)\n            self.transport.write(reply.encode())\n",
+        "            first = response.msgId not in self.factory.windowPubRx[self.addr]\n            self.factory.windowPubRx[self.addr][response.msgId] = response\n            reply = PUBREC()\n            reply.msgId = response.msgId\n            log.debug(\"<== {packet:7} (id={response.msgId:04x})\" , packet=\"PUBREC\", response=response)\n            self.transport.write(reply.encode())\n            if first:\n                self._deliver(response)\n"),
+    (P, "        # the callback comes last: it may call back into the API (e.g. disconnect())\n        if msg is not None:\n            self._deliver(msg)\n", ""),
+    # (with delivery at PUBLISH time the receive window has to be emptied with the session, or a new
+    #  message reusing an abandoned identifier would be taken for a repeat and never delivered)
+    (P, "            self._purgeSession(MQTTSessionCleared(), inherited=True)\n", "            self._purgeSession(MQTTSessionCleared(), inherited=True)\n            self.factory.windowPubRx[self.addr].clear()\n"),
+    (P, "        if self._cleanStart:\n            self._purgeSession(reason)\n", "        if self._cleanStart:\n            self._purgeSession(reason)\n            self.factory.windowPubRx[self.addr].clear()\n"),
+])
+rf("rf-handshake-loss-fails-connect-at-once", [
+    # allowed alternative for C04: a loss in mid-handshake fails connect() with the reason at once
+    (B, "        self._stopKeepalive()\n        # back to IDLE first", "        self._stopKeepalive()\n        pending, self.connReq = getattr(self, 'connReq', None), None\n        if pending is not None and pending.deferred is not None:\n            if pending.alarm.active():\n                pending.alarm.cancel()\n            pending.deferred.errback(reason)\n        # back to IDLE first"),
+])
